@@ -1,5 +1,6 @@
 import GroupbyVerif.Lemmas.Factorize
 import GroupbyVerif.Lemmas.Monotonic
+import GroupbyVerif.LoopBridge.CountingSort
 
 /-!
 # C02 — Factorization is a faithful partition of the rows
@@ -485,5 +486,31 @@ theorem factorize2d_codes_eq_iff (keyCols : List (List (Option κ))) (n : Nat) (
           · exact absurd h hni
           · rw [← hvi, (codeRow_eq_iff keyCols i j).mpr hall]
 
+
+/-! ### the counting sort of the current source, end to end -/
+
+/-- **the translated `_build_group_sorted_indexer_numba` lists, per group, exactly the ascending positions of its
+rows**: `Generated.Loops.build_group_sorted_indexer` is regenerated from `groupby_lib/groupby/core.py` on every run.
+For any chunking of the codes, any mask, codes below `ngroups` and the true group sizes, entry `j` of the segment of
+group `g` (which starts at the sum of the sizes of the groups before it) is the `j`-th position of `g` - so the
+segments partition the non-null-key rows (`mem_positionsOf`, `positionsOf_sorted`, `null_rows_not_listed`) -/
+theorem source_counting_sort (k : Kind) (chunks : List (List Int)) (msk : List Bool) (masked : Bool)
+    (cnt : Int → Int) (ng : Nat) (ml kml : Int) (km : Int → Int)
+    (hrange : ∀ c ∈ chunks.flatten, c < (ng : Int))
+    (hcnt : ∀ g : Nat, g < ng →
+      cnt (g : Int) = ((positionsOf (effCodes masked chunks.flatten msk) (g : Int)).length : Int))
+    (hc0 : ∀ g : Nat, 0 ≤ cnt (g : Int)) (g : Nat) (hg : g < ng) (j : Nat)
+    (hj : j < (positionsOf (effCodes masked chunks.flatten msk) (g : Int)).length) :
+    let r := Generated.Loops.build_group_sorted_indexer k chunks ng cnt false kml km masked ml (arrOf msk true)
+    r.2 = false ∧
+      r.1 (LoopBridge.pre cnt g + (j : Int)) =
+        (((positionsOf (effCodes masked chunks.flatten msk) (g : Int))[j] : Nat) : Int) :=
+  LoopBridge.build_group_sorted_indexer_eq k chunks msk masked cnt ng ml kml km hrange hcnt hc0 g hg j hj
+
+/-- non-vacuity: two chunks, a null key, sizes 1 and 2: the indexer is [2, 0, 3] -/
+example :
+    let r := Generated.Loops.build_group_sorted_indexer .f [[1, -1], [0, 1]] 2 (arrOf [1, 2] 0) false 0 (fun _ => 0)
+      false 0 (arrOf [] true)
+    ((List.range 3).map fun (p : Nat) => r.1 (p : Int)) = [2, 0, 3] := by decide
 
 end GV.C02
